@@ -11,6 +11,18 @@ CLAIMED = {
    note="Trusts rich/_cell_widths.py as the Unicode width table (well-formedness and stable blocks are spot-checked); None style == null style.",
    ref="5 C13"),
 }
+CLAIMED["C18"] = dict(
+   technique="exhaustive enumeration (all 2^24 RGB colours in the thorough tier; grid + boundary lattice in the quick tier) + Hypothesis-generated colours against an independent integer-metric argmin oracle",
+   level="exploration",
+   text="Every clause (gamut, idempotence, unchanged-when-representable, default, nearest palette entry, grey ramp, SGR table) is evaluated on every colour of the enumerated domain for all four target systems; the thorough tier enumerates all 16,777,216 RGB colours and all indexed colours, so that part is exhaustive. The quick tier is a stratified sample, hence exploration.",
+   note="Trusts rich/_palettes.py as the palette data; the distance metric is re-implemented (numpy int64, or pure Python) and any entry at minimum distance is accepted.",
+   ref="5 C18")
+CLAIMED["C06"] = dict(
+   technique="Hypothesis property tests: algebraic laws and field-wise comparison with a dict-merge reference, str/normalize round trip, documented-spelling table, eq=>hash over 12 construction routes",
+   level="exploration",
+   text="Associativity, identity and right bias are checked on generated triples over the full attribute x colour x link space; parse(str(s)) and parse(normalize(str(s))) on generated styles; each documented spelling against the keyword-built style; eq=>hash and dict lookup over all pairs of construction routes of one style. The space is unbounded (colours, links), so exploration is the honest level.",
+   note="Links non-empty and whitespace-free, rgb() without spaces, lower-case spellings from docs/source/style.rst; colour names are ignored by the field-wise view but not by ==.",
+   ref="5 C06")
 NOT_YET = {}
 props = [json.loads(l) for l in open(os.path.join(V, "properties.jsonl"))]
 checks = []
